@@ -80,6 +80,66 @@ pub fn scripted_heuristic(
     }
 }
 
+/// Enumerate the REAL choice tree of nogood_internal on the real code: every path = one possible history of
+/// some contract-abiding heuristic. Returns (runs, distinct answers, max heuristic calls on a path).
+pub fn enumerate_tree(text: &str, b: Backend, two_val: bool, max_runs: usize) -> (usize, Vec<Vec<Vec<Term>>>, usize) {
+    let parser = AdfParser::default();
+    parser.parse()(text).expect("harness text must parse");
+    let mut prefix: Vec<usize> = Vec::new();
+    let mut runs = 0usize;
+    let mut distinct: Vec<Vec<Vec<Term>>> = Vec::new();
+    let mut maxcalls = 0usize;
+    loop {
+        let widths: Arc<Mutex<Vec<usize>>> = Arc::new(Mutex::new(Vec::new()));
+        let w2 = widths.clone();
+        let pre = prefix.clone();
+        let heu = move |_adf: &Adf, interp: &[Term]| -> Option<(Var, Term)> {
+            let und: Vec<usize> = interp.iter().enumerate().filter(|(_, t)| !t.is_truth_value()).map(|(i, _)| i).collect();
+            if und.is_empty() {
+                return None;
+            }
+            let mut w = w2.lock().unwrap();
+            let k = w.len();
+            if k > 4000 {
+                panic!("heuristic call budget exceeded on one path");
+            }
+            w.push(und.len() * 2);
+            let o = if k < pre.len() { pre[k] } else { 0 };
+            Some((Var(und[o / 2]), Term::from(o % 2 == 0)))
+        };
+        let mut adf = build_adf(&parser, b);
+        let res: Vec<Vec<Term>> = if two_val {
+            let (s, r) = crossbeam_channel::unbounded();
+            adf.two_val_nogood_channel(Heuristic::Custom(&heu), s);
+            r.try_iter().collect()
+        } else {
+            adf.stable_nogood(Heuristic::Custom(&heu)).collect()
+        };
+        runs += 1;
+        if !distinct.contains(&res) {
+            distinct.push(res);
+        }
+        let w = widths.lock().unwrap().clone();
+        maxcalls = maxcalls.max(w.len());
+        // next path in depth-first order
+        let mut path: Vec<usize> = (0..w.len()).map(|i| if i < prefix.len() { prefix[i] } else { 0 }).collect();
+        let mut advanced = false;
+        while let Some(last) = path.pop() {
+            let i = path.len();
+            if last + 1 < w[i] {
+                path.push(last + 1);
+                advanced = true;
+                break;
+            }
+        }
+        if !advanced || runs >= max_runs {
+            break;
+        }
+        prefix = path;
+    }
+    (runs, distinct, maxcalls)
+}
+
 #[derive(Clone, Debug)]
 pub struct CallSpec {
     pub c: &'static str,
@@ -279,7 +339,22 @@ pub fn run_case(case: &AdfCase, specs: &[CallSpec], disabled: &Mutex<Vec<String>
         }
         calls.push(rec);
     }
-    json!({"kind": "adf", "id": case.id, "n": n, "prop": prop,
+    let mut trees = Vec::new();
+    if prop == "C05" && n <= 3 && tree_wanted(case) {
+        for (b, two_val) in [(Backend::Native, false), (Backend::Native, true), (Backend::Hybrid, false)] {
+            let t = text.clone();
+            let out = guarded(120, move || enumerate_tree(&t, b, two_val, 20000));
+            let mut rec = json!({"c": if two_val { "tree_twoval" } else { "tree_ng" }, "b": b.name(), "h": "Tree", "st": out.status(),
+                                 "msg": out.msg(), "runs": 0, "results": [], "maxcalls": 0});
+            if let Outcome::Ok((runs, distinct, maxcalls)) = out {
+                rec["runs"] = json!(runs);
+                rec["maxcalls"] = json!(maxcalls);
+                rec["results"] = Value::Array(distinct.iter().map(|r| interps_json(r)).collect());
+            }
+            trees.push(rec);
+        }
+    }
+    json!({"kind": "adf", "id": case.id, "n": n, "prop": prop, "trees": trees,
            "asts": case.asts.iter().map(|a| a.to_json_idx()).collect::<Vec<_>>(),
            "labels": case.labels, "names": names.unwrap_or_else(|| case.labels.clone()),
            "text": text, "calls": calls})
@@ -454,4 +529,13 @@ pub fn spec_from_json(v: &Value) -> CallSpec {
         seed: v["seed"].as_str().and_then(|s| s.parse().ok()).unwrap_or(0),
         script: v["script"].as_array().map(|a| a.iter().map(|x| (x[0].as_u64().unwrap() as usize, x[1].as_bool().unwrap())).collect()).unwrap_or_default(),
     }
+}
+
+/// choice trees are enumerated for every ADF with <= 2 statements and for every 4th three-statement one
+fn tree_wanted(case: &AdfCase) -> bool {
+    if case.n() <= 2 {
+        return true;
+    }
+    let h: usize = case.id.bytes().map(|b| b as usize).sum();
+    h % 4 == 0
 }
